@@ -418,6 +418,9 @@ def run_load(retort, t, v):
 # type does not represent.  They are run through the library only; the direct oracles (mode agreement, strict inside
 # lax, LoadError only) are checked on them, the model is not.
 
+ONE_SHOT = {"generator", "map-object"}
+
+
 def exotic_values():
     import array
     import collections
